@@ -86,59 +86,78 @@ def containsSub (s sub : String) : Bool :=
   let ss := sub.toList
   (List.range (cs.length + 1 - n)).any fun i => (cs.drop i).take n == ss
 
+/-- the decimal device index of a `torch.device` string: non-empty, ASCII digits only, no
+leading zero (`"cuda:"`, `"cuda:01"`, `"cuda:+1"`, `"cuda:1_0"`, `"cuda: 1"` are torch
+RuntimeErrors).  torch keeps the index in a signed byte (`"cuda:128"` has index -128); indices
+>= 128 are outside this model (recorded as an assumption of the harness). -/
+def parseIndex (cs : List Char) : Option Nat :=
+  if cs.isEmpty then .none
+  else if !cs.all Char.isDigit then .none
+  else if cs.length > 1 && cs.head? == some '0' then .none
+  else some (cs.foldl (fun n c => 10 * n + (c.toNat - '0'.toNat)) 0)
+
 /-- the part of `torch.device(str)` that validate_device relies on, for strings that
-contain "cuda": `"cuda"` or `"cuda:<n>"`; anything else is torch's RuntimeError. -/
+contain "cuda": `"cuda"` or `"cuda:<n>"` (case-sensitive); anything else is torch's
+RuntimeError. -/
 def parseCuda (s : String) : Except Err (Option Nat) :=
   if s = "cuda" then .ok .none
   else if s.startsWith "cuda:" then
-    match (s.drop 5).toNat? with
+    match parseIndex (s.toList.drop 5) with
     | some n => .ok (some n)
     | .none => .error .runtimeError
   else .error .runtimeError
 
-def finishCuda (env : Env) (idx : Option Nat) : Except Err Atom :=
+/-- `if dev.type == "cuda": …; return f"cuda:{index}", index` -/
+def finishCuda (env : Env) (idx : Option Nat) : Except Err (Atom × Int) :=
   if !env.cuda then .error .runtimeError
   else
     let index := idx.getD env.currentDevice
     if index ≥ env.numDevices then .error .runtimeError
-    else .ok (.str s!"cuda:{index}")
+    else .ok (.str s!"cuda:{index}", (index : Int))
 
-def finishMps (env : Env) : Except Err Atom :=
-  if !env.mps then .error .runtimeError else .ok (.str "mps")
+/-- `elif dev.type == "mps": …; return "mps", 0` -/
+def finishMps (env : Env) : Except Err (Atom × Int) :=
+  if !env.mps then .error .runtimeError else .ok (.str "mps", 0)
 
-/-- `validate_device(dev)[0]` for the value kinds a configuration can carry. -/
-def validateDevice (env : Env) (v : Tree) : Except Err Atom :=
+/-- `validate_device(dev)` = `(device_str, device_id)` for the value kinds a configuration can
+carry. -/
+def validateDeviceFull (env : Env) (v : Tree) : Except Err (Atom × Int) :=
   match v with
   | .leaf .none =>
       if env.cuda then finishCuda env .none
       else if env.mps then finishMps env
-      else .ok (.str "cpu")
+      else .ok (.str "cpu", -1)
   | .leaf (.str s) =>
       let l := lowerStr s
       if containsSub l "cuda" then do
         let idx ← parseCuda s
         finishCuda env idx
-      else if containsSub l "gpu" then
+      else if l = "gpu" then      -- `elif dev.lower() == "gpu":` (repaired: was a substring test)
         if env.cuda then finishCuda env .none
         else if env.mps then finishMps env
         else .error .runtimeError
       else if l = "mps" then finishMps env
-      else if l = "cpu" then .ok (.str "cpu")
+      else if l = "cpu" then .ok (.str "cpu", -1)
       else .error .valueError
   | .leaf (.int i) =>
       if i < 0 then .error .valueError
       else if env.cuda then finishCuda env (some i.toNat)
       else .error .runtimeError
-  | .leaf (.bool b) =>       -- isinstance(True, int)
-      if env.cuda then finishCuda env (some (if b then 1 else 0))
-      else .error .runtimeError
+  | .leaf (.bool _) =>
+      -- isinstance(True, int): not negative, then either "cuda is not available" or
+      -- `torch.device("cuda:True")`, torch's RuntimeError
+      .error .runtimeError
   | .leaf (.dev t idx) =>    -- a torch.device object goes straight to the `dev.type` dispatch
       if t = "cuda" then
         if env.cuda then finishCuda env idx else .error .runtimeError
       else if t = "mps" then finishMps env
-      else if t = "cpu" then .ok (.str "cpu")
+      else if t = "cpu" then .ok (.str "cpu", -1)
       else .error .valueError
   | _ => .error .typeError
+
+/-- `validate_device(dev)[0]`: the normalised device string that is stored -/
+def validateDevice (env : Env) (v : Tree) : Except Err Atom :=
+  (validateDeviceFull env v).map (·.1)
 
 /-- `check_key_val(key, val)`: only the key `device` is special (`aliases` and
 `deprecations` are empty in the module). -/
@@ -253,6 +272,20 @@ def get (d : Dict) (keys : List Key) : Except Err Tree :=
       | some (.leaf a) => match rest with
           | [] => .ok (.leaf a)
           | _ => .error .typeError
+
+/-- `get(key, default, config, override_with)`: `override_with is not None` short-cuts
+everything (0, False, "" and empty containers are returned as they are); otherwise the walk of
+`get`, and a `TypeError`/`IndexError`/`KeyError` is replaced by `default` unless that is the
+`no_default` sentinel (`default = none` here) — whatever its truthiness -/
+def getFull (d : Dict) (keys : List Key) (default : Option Tree) (override : Tree) : Except Err Tree :=
+  match override with
+  | .leaf .none =>
+      match get d keys with
+      | .ok t => .ok t
+      | .error e => match default with
+          | some dv => .ok dv
+          | .none => .error e
+  | o => .ok o
 
 /-! ### update / merge / refresh / update_defaults -/
 
